@@ -140,7 +140,19 @@ var _ = helper(1)
 			"b.go": "package m\n\ntype B struct {\n\tL [][]int\n\tA *A\n}\n\nfunc useB(x, y *B) (bool, int) {\n\treturn deriveEqualB(x, y), deriveCompareB(x, y)\n}\n",
 			"c.go": "package m\n\ntype C struct {\n\tM map[string][]int\n\tB []B\n}\n\nfunc useC(x, y *C) (bool, uint64) {\n\treturn deriveEqualC(x, y), deriveHashC(x)\n}\n",
 		}},
+		{name: "same-call-text-resolving-in-different-passes", args: []string{"."}, files: pkgFiles{"a.go": `package m
+
+func has(m map[string]int, name string) bool {
+	names := deriveKeys(m)
+	if names := deriveSort(names); len(names) > 0 {
+		return deriveContains(deriveSort(names), name)
+	}
+	return false
+}
+`}},
 		{name: "several-packages", args: []string{"./..."}, files: pkgFiles{
+			// a directory with nothing but an external test package sits between the others
+			"bx/x_test.go": "package bx_test\n",
 			// a and b each define and call a function named like the first helper name the other one mints
 			"a/a.go": "package a\n\ntype A struct {\n\tX int\n\tS []string\n\ttags []string\n}\n\nfunc deriveCompare_(x int) int { return x }\n\nvar _ = deriveCompare_(1)\n\nfunc use(x, y *A) bool {\n\treturn deriveEqual(x, y)\n}\n",
 			"b/b.go": "package b\n\ntype B struct {\n\tM map[string]int\n}\n\nfunc deriveEqual_(x int) int { return x }\n\nvar _ = deriveEqual_(1)\n\nfunc use(x, y *B) int {\n\treturn deriveCompare(x, y)\n}\n",
@@ -309,6 +321,17 @@ func checkC08(tier string) {
 			writePkg(cdir, sc.files)
 			cr := goderive(cdir, append(append([]string{}, sc.flags...), sc.args...)...)
 			sha := shaFiles(derivedFilesOf(cdir))
+			if cr.Exit == 0 && k < 5 {
+				// "every run" includes the next one, started on the tree this one left behind
+				cr2 := goderive(cdir, append(append([]string{}, sc.flags...), sc.args...)...)
+				if sha2 := shaFiles(derivedFilesOf(cdir)); cr2.Exit != 0 || sha2 != sha {
+					rep.Violation("rerun-on-own-output-differs|"+sc.name, fmt.Sprintf("scenario %s: running goderive again on the tree its first run left behind gives exit %d and different bytes (%s vs %s)", sc.name, cr2.Exit, sha, sha2),
+						map[string]interface{}{"engine": "e3b", "files": sc.files, "args": sc.args, "flags": sc.flags})
+				}
+				mu.Lock()
+				conformRuns++
+				mu.Unlock()
+			}
 			removeAll(cdir)
 			mu.Lock()
 			conformRuns++
@@ -345,7 +368,7 @@ func checkC08(tier string) {
 	rep.Cov["conformance_runs_real_binary"] = conformRuns
 	rep.Cov["invocation_variants"] = invRuns
 	rep.Cov["exhaustive"] = allExhaustive
-	rep.Cov["rule"] = "state = one map-iteration schedule of the generator on one scenario: every range over a map in derive/, plugin/* and main.go (and the loader's InitialPackages order) is rewritten at check time into an iterator that asks the explorer which of the remaining keys comes next; transition = one in-process Generate() of the real generator under that schedule; all schedules with at most `deviation_bound` departures from sorted order are enumerated by DFS; every new output's schedule is replayed once (identical bytes required, arity divergence is a hard error); oracle: one distinct output per scenario; conformance: 20 runs of the real binary per scenario must produce explored outputs; plus every grouping/ordering/spelling of package arguments (see invocation_variants) compared with the solo-run bytes; non-trivial = schedules explored"
+	rep.Cov["rule"] = "state = one map-iteration schedule of the generator on one scenario: every range over a map in derive/, plugin/* and main.go (and the loader's InitialPackages order) is rewritten at check time into an iterator that asks the explorer which of the remaining keys comes next; transition = one in-process Generate() of the real generator under that schedule; all schedules with at most `deviation_bound` departures from sorted order are enumerated by DFS; every new output's schedule is replayed once (identical bytes required, arity divergence is a hard error); oracle: one distinct output per scenario; conformance: 20 runs of the real binary per scenario must produce explored outputs, and 5 of them are followed by a second run on the tree they left behind (same bytes required); plus every grouping/ordering/spelling of package arguments (see invocation_variants) compared with the solo-run bytes; non-trivial = schedules explored"
 	rep.Cov["bound"] = fmt.Sprintf("%d scenarios, deviation bound %d", len(scns), bound)
 	rep.Assume = append(rep.Assume, "map iteration and the initial package order are the only nondeterminism inside goderive (the rewriter refuses go statements, select, time, rand, atomic)")
 	rep.Finish()
@@ -369,6 +392,8 @@ func c08Invocations(rep *Reporter) int {
 		// textually the same nested call as in util (needs a second pass in both packages)
 		"bill/bill.go": "package bill\n\nfunc keys(m map[string]int) []string {\n\treturn deriveSort(deriveKeys(m))\n}\n\nfunc same(a, b []string) bool {\n\treturn deriveEqual(a, b)\n}\n",
 	}
+	// a directory holding only an external test package is loaded as a file-less package
+	files["mid/x_test.go"] = "package mid_test\n"
 	pkgs := []string{"store", "api", "util", "bill"}
 	solo := map[string]string{}
 	for _, p := range pkgs {
@@ -434,6 +459,22 @@ func c08Invocations(rep *Reporter) int {
 		}
 	}
 	invs = append(invs, inv{[]string{"./..."}, pkgs})
+	// the file-less directory named explicitly, at every position among the four packages
+	for pos := 0; pos <= len(pkgs); pos++ {
+		for how := 0; how < 2; how++ {
+			var args []string
+			for i, p := range pkgs {
+				if i == pos {
+					args = append(args, spell("mid", how))
+				}
+				args = append(args, spell(p, how))
+			}
+			if pos == len(pkgs) {
+				args = append(args, spell("mid", how))
+			}
+			invs = append(invs, inv{args, pkgs})
+		}
+	}
 	parDo(len(invs), func(i int) {
 		iv := invs[i]
 		dir := filepath.Join(scratchDir, "c08", fmt.Sprintf("inv%04d", i))
